@@ -4,6 +4,7 @@
 use std::io::{BufRead, Write};
 use std::panic::{catch_unwind, AssertUnwindSafe};
 
+mod area_datum;
 mod area_gc;
 mod area_lv;
 mod area_mac;
@@ -27,6 +28,7 @@ fn run_case(c: &[String]) -> String {
         4 => text::parse_text_case(&cps(&c[1..])),
         5 => text::parse_all_case(&cps(&c[1..])),
         6 => text::parse_text_case(&cps(&c[2..])),
+        7..=9 => area_datum::run(c),
         20..=29 => area_numfmt::run(c),
         10..=29 => area_num::run(c),
         30..=39 => area_str::run(c),
